@@ -661,6 +661,9 @@ pub fn partial_liquidation_reply(
         position.size += Integer::new_negative(input);
     }
 
+    // the position is updated in this block, the restriction mode check relies on this stamp
+    position.block_number = env.block.height;
+
     // reduce the traders margin
     position.margin = position
         .margin
